@@ -5,6 +5,7 @@ import SignaloModel.Proofs.SmoothProofs
 
 Property theorems for C06 (statements are printed by `#check`, axioms by `#check @Registry.kalman_step_textbook
 #check @Registry.kalman_state
+#check @Registry.kalman_registry_correct
 #print axioms`;
 `bin/check C06` re-elaborates this file on every run and audits the axiom lists).
 -/
@@ -19,3 +20,4 @@ open SignaloModel
 #print axioms Smooth.kalman_hull
 #print axioms Registry.kalman_step_textbook
 #print axioms Registry.kalman_state
+#print axioms Registry.kalman_registry_correct
